@@ -2,6 +2,7 @@ import Generated.Funcs
 import DracoModel.Octahedron
 import DracoModel.RansSymbol
 import DracoModel.Varint
+import DracoModel.Geometry
 /-
   DracoProofs.GeneratedCore — tactics and C-arithmetic lemmas for the equality proofs, and the functions of
   core/bit_utils.h, core/math_utils.h, compression/entropy/rans_symbol_coding.h (used by C17, C08; the octahedron and
@@ -163,4 +164,15 @@ theorem MostSignificantBit_eq_model (n : Int) (hn : U32 n) (h0 : n ≠ 0) :
   have e2 : ((31 - (Nat.log2 n.toNat : Int)) % 2^32).toNat = 31 - Nat.log2 n.toNat := by omega
   rw [e1, e2, xor31 ⟨_, hl⟩]
   c_leaf
+/-! ### core/draco_types.cc -/
+
+/-- `DataTypeLength` for the valid data types `DT_INT8 … DT_BOOL` (the model returns 0, the C++ −1 for the others) -/
+theorem DataTypeLength_eq_model (dt : Nat) (h1 : 1 ≤ dt) (h2 : dt ≤ 11) :
+    DataTypeLength dt = (dataTypeLength dt : Int) := by
+  unfold DataTypeLength dataTypeLength
+  have e : wrapI32 (dt : Int) = dt := wrapI32_id _ (by omega) (by omega)
+  simp only [e]
+  repeat' (first | omega | split)
+
+
 end Draco.Generated
